@@ -70,6 +70,13 @@ FACTS = {
         ('compare_out_of_range_years_as_instants', 'elementpath/datatypes/datetime.py', 'AbstractDateTime._compare', 'order', 'if self._year != year and (not (1 <= self._year <= 9999 and 1 <= year <= 9999)): ;; if isinstance(other, AbstractDateTime): ;; return op(self.todelta(), other.todelta())'),
         ('min_max_use_implicit_timezone', 'elementpath/xpath2/_xpath2_functions.py', 'evaluate__max_min_functions', 'has', 'return aggregate_func(values, key=lambda x: self.with_implicit_timezone(x, context))'),
         ('adjust_moves_by_offset_difference', 'elementpath/xpath_tokens/base.py', 'XPathToken.adjust_datetime', 'order', 'if isinstance(_tzinfo, Timezone) and isinstance(timezone, Timezone): ;; _item += timezone.offset - _tzinfo.offset ;; _item.tzinfo = timezone'),
+        ('datetime_components_are_fields', 'elementpath/xpath2/_xpath2_functions.py', 'evaluate__from_datetime_functions', 'order', "if item.year > 0 or item.xsd_versions == '1.0': ;; return item.year ;; return item.year + 1 ;; return item.month ;; return item.day ;; return item.hour ;; return item.minute"),
+        ('seconds_from_datetime_scaled', 'elementpath/xpath2/_xpath2_functions.py', 'evaluate__from_datetime_functions', 'order', "elif item.microsecond: ;; return item.second + item.microsecond / Decimal('1000000.0') ;; else: ;; return item.second"),
+        ('seconds_from_datetime_no_concatenation', 'elementpath/xpath2/_xpath2_functions.py', 'evaluate__from_datetime_functions', 'lacks', '.format(item.second, item.microsecond)'),
+        ('seconds_from_time_scaled', 'elementpath/xpath2/_xpath2_functions.py', 'evaluate__seconds_from_time', 'has', "return item.second + item.microsecond / Decimal('1000000.0')"),
+        ('date_components_are_fields', 'elementpath/xpath2/_xpath2_functions.py', 'evaluate__from_date_functions', 'order', "if item.year > 0 or item.xsd_versions == '1.0': ;; return item.year ;; return item.year + 1 ;; return item.month ;; return item.day"),
+        ('timezone_from_date_without_datetime', 'elementpath/xpath2/_xpath2_functions.py', 'evaluate__from_date_functions', 'lacks', 'datetime.datetime('),
+        ('timezone_from_date_offset', 'elementpath/xpath2/_xpath2_functions.py', 'evaluate__from_date_functions', 'has', 'offset = item.tzinfo.utcoffset(None)'),
     ],
     'C17': [
         ('serialize_without_tail', 'elementpath/serialization.py', 'serialize_to_xml', 'order', 'if elem.tail: ;; elem = copy(elem) ;; elem.tail = None'),
